@@ -141,14 +141,16 @@ static void print_ret(int scn, int tick, const Est& e) {
   std::printf("\n");
 }
 
+static double g_offset = 0.0;   // seconds added to every time (argv[1]); exactly representable shifts only
+
 template <int MAXN>
 static void run_scn(int scn, long t0, const std::vector<TickIn>& ticks, double unit) {
   using MF = formak::runtime::ManagedFilter<RecImpl<MAXN>>;
   static_assert(MF::compatible);
 #if HAS_CALIBRATION
-  MF mf(t0 * unit, Est{}, CalT{77});
+  MF mf(t0 * unit + g_offset, Est{}, CalT{77});
 #else
-  MF mf(t0 * unit, Est{});
+  MF mf(t0 * unit + g_offset, Est{});
 #endif
   int ti = 0;
   for (const TickIn& tk : ticks) {
@@ -161,21 +163,21 @@ static void run_scn(int scn, long t0, const std::vector<TickIn>& ticks, double u
       Reading<MAXN> rd;
       rd.key = r.key;
       rd.id = r.id;
-      rs.push_back(MF::wrap(r.t * unit, rd));
+      rs.push_back(MF::wrap(r.t * unit + g_offset, rd));
     }
     Est ret;
 #if HAS_CONTROL
     CtlT u{ti};
     if (rs.empty() && (ti % 2 == 0)) {
-      ret = mf.tick(tk.out * unit, u);
+      ret = mf.tick(tk.out * unit + g_offset, u);
     } else {
-      ret = mf.tick(tk.out * unit, u, rs);
+      ret = mf.tick(tk.out * unit + g_offset, u, rs);
     }
 #else
     if (rs.empty() && (ti % 2 == 0)) {
-      ret = mf.tick(tk.out * unit);
+      ret = mf.tick(tk.out * unit + g_offset);
     } else {
-      ret = mf.tick(tk.out * unit, rs);
+      ret = mf.tick(tk.out * unit + g_offset, rs);
     }
 #endif
     print_ret(scn, ti, ret);
@@ -184,8 +186,7 @@ static void run_scn(int scn, long t0, const std::vector<TickIn>& ticks, double u
 
 int main(int argc, char** argv) {
   double unit = UNIT_SCALE;
-  (void)argc;
-  (void)argv;
+  if (argc > 1) g_offset = std::strtod(argv[1], nullptr);
   char tag[16];
   int scn = 0;
   while (std::scanf("%15s", tag) == 1) {
